@@ -49,17 +49,22 @@ pub mod block {
     }
     impl Commit {
         /// `CommitExt::vote_sign_bytes`: the canonical vote bytes (opaque here)
-        pub fn vote_sign_bytes(&self, _chain_id: &super::chain::Id, _idx: usize) -> super::Result<super::SignBytes> {
-            Ok(super::SignBytes)
+        pub fn vote_sign_bytes(&self, _chain_id: &super::chain::Id, idx: usize) -> super::Result<super::SignBytes> {
+            Ok(super::SignBytes { slot: idx })
         }
     }
 }
-pub struct SignBytes;
+/// the canonical vote of commit slot `slot` (each slot has its own timestamp, so its own bytes)
+pub struct SignBytes {
+    pub slot: usize,
+}
 pub struct Verifier;
 
+/// Signature oracle: the signature verifies for the sign bytes of exactly one commit slot (or
+/// none). An honest entry at slot j carries a signature over slot j's vote.
 #[derive(Clone, Copy, Debug)]
 pub struct Signature {
-    pub valid: bool,
+    pub valid_for_slot: Option<usize>,
 }
 
 #[derive(Clone, Copy, Debug)]
@@ -78,8 +83,8 @@ impl Info {
     pub fn power(&self) -> u64 {
         self.power
     }
-    pub fn verify_signature<V>(&self, _sign_bytes: &SignBytes, signature: &Signature) -> Result<()> {
-        if signature.valid { Ok(()) } else { Err(Error::Verification(VerificationError::Other)) }
+    pub fn verify_signature<V>(&self, sign_bytes: &SignBytes, signature: &Signature) -> Result<()> {
+        if signature.valid_for_slot == Some(sign_bytes.slot) { Ok(()) } else { Err(Error::Verification(VerificationError::Other)) }
     }
 }
 
@@ -205,7 +210,9 @@ fn any_set() -> Set {
 
 fn any_sig(address: u8) -> CommitSig {
     let kind: u8 = kani::any();
-    let signature = if kani::any() { Some(Signature { valid: kani::any() }) } else { None };
+    let slot: usize = kani::any();
+    kani::assume(slot < N);
+    let signature = if kani::any() { Some(Signature { valid_for_slot: if kani::any() { Some(slot) } else { None } }) } else { None };
     let validator_address = account::Id(address);
     if kind == 0 {
         CommitSig::BlockIdFlagAbsent
@@ -235,7 +242,7 @@ fn c03_light_needs_two_thirds() {
         if i < m && i < set.vals.n {
             if let CommitSig::BlockIdFlagCommit { signature, .. } = &sigs[i] {
                 match signature {
-                    Some(s) if s.valid => signed += set.vals.items[i].power as u128,
+                    Some(s) if s.valid_for_slot == Some(i) => signed += set.vals.items[i].power as u128,
                     _ => all_commit_sigs_valid = false,
                 }
             }
@@ -281,7 +288,7 @@ fn c03_trusting_needs_one_third_of_distinct_validators() {
             while j < N {
                 if j < m {
                     if let CommitSig::BlockIdFlagCommit { validator_address, signature: Some(s), .. } = &sigs[j] {
-                        if validator_address.0 as usize == v + 1 && s.valid {
+                        if validator_address.0 as usize == v + 1 && s.valid_for_slot == Some(j) {
                             has_valid = true;
                         }
                     }
